@@ -212,6 +212,7 @@ fn crash_from_panic(prefix: &str) -> Crash {
 
 impl Node {
     fn new() -> Result<Node, Crash> {
+        disk::with(|d| d.reset_read_clock());
         let r = std::panic::catch_unwind(std::panic::AssertUnwindSafe(|| {
             let mut ctx = LspContext::new();
             let client = ctx.listen_memory_verif();
@@ -232,6 +233,7 @@ impl Node {
 
     /// Deliver one message; returns everything the server sent in reaction.
     fn deliver(&mut self, msg: Message) -> Result<Vec<Message>, Crash> {
+        disk::with(|d| d.reset_read_clock());
         let server = &mut self.server;
         let r = std::panic::catch_unwind(std::panic::AssertUnwindSafe(|| server.handle_message(msg)));
         match r {
@@ -590,6 +592,7 @@ pub fn execute(h: &History, seed_checks: usize, stats: &mut RunStats) -> Option<
     for (f, st) in &h.disk {
         apply_disk_state(&mut d, f, st);
     }
+    d.read_budget = Some(6_000);
     disk::install(d);
     super::passwatch::install();
     let r = execute_inner(h, seed_checks, stats);
@@ -603,6 +606,14 @@ pub fn execute(h: &History, seed_checks: usize, stats: &mut RunStats) -> Option<
 }
 
 fn crash_found(c: &Crash, who: &str, method: &str, at: usize) -> Found {
+    if c.what.contains(mos_simrt::disk::READ_BUDGET_MARKER) {
+        return Found {
+            class: "nonterminating_file_loop".into(),
+            sig: format!("nonterminating:file_reads:{}:{}", who, method.rsplit('/').next().unwrap_or(method)),
+            message: format!("{} server, {}: does not terminate, it keeps reading files ({})", who, method, c.what),
+            at_event: at,
+        };
+    }
     let loc = short_loc(&c.location);
     Found {
         class: format!("crash_{}", who),
